@@ -143,8 +143,9 @@ def _resolve_module_name(ref: str, module: str | None) -> str | None:
         return module
 
     # Easy path, use the qualname if it's provided.
+    #   (Only if the text leads with a dotted name: `list[decimal.Decimal]` does not.)
     module = ref.split(".", maxsplit=1)[0]
-    if module != ref:
+    if module != ref and module.isidentifier():
         return module
     # Harder path, find the actual object in the stack frame, if possible.
     obj = frames.extract(ref)
